@@ -18,7 +18,8 @@ THEOREMS = [
 RULE = ("(a) call histories: Disposable with 0..6 dispose() calls, 0..3 re-entrant dispose() calls from inside the action and an "
         "action that raises at its first/second invocation; "
         "BooleanDisposable 0..6 calls; ScheduledDisposable histories of dispose/run/runall over a recording queue scheduler, the real "
-        "ImmediateScheduler and the real TestScheduler; compared per call: action / wrapped-resource dispose count and is_disposed; "
+        "ImmediateScheduler and the real TestScheduler, plus (oracle only) 2-3 STACKED ScheduledDisposable layers each on its own "
+        "queue/Test/Immediate scheduler, disposed through any layer, checking on which scheduler the resource is released; compared per call: action / wrapped-resource dispose count and is_disposed; "
         "non-trivial = >=2 calls or a re-entrant call, for scheduled >=2 call kinds and the resource disposed. (b) 2-3 real threads "
         "calling dispose() (scheduled: plus one worker thread per scheduled action), ALL schedules with <=2 (thorough <=3) "
         "preemptions; non-trivial = >=1 preemption. The space of histories is small: most generated cases are duplicates and are "
@@ -49,6 +50,18 @@ def cases(rng, tier):
         yield {"op": "history", "cls": "scheduled", "items": 1, "falsy": rng.choice([[], [], [0]]), "sched_kind": kind, "threads": [ops]}
 
 
+    # stacked layers (oracle only): 2-3 ScheduledDisposable layers, each on its own scheduler, dispose through any layer
+    for _ in range(n * 2):
+        layers = [rng.choice(["queue", "queue", "test", "immediate"]) for _ in range(rng.choice([2, 2, 3]))]
+        ops = []
+        for _ in range(rng.choice([1, 2, 3, 4, 6, 8])):
+            k = rng.randrange(len(layers))
+            ops.append(["dispose", k] if rng.random() < 0.45 else ["run", k])
+        yield {"op": "history", "cls": "schedstack", "items": 1, "layers": layers, "threads": [ops]}
+    yield {"op": "history", "cls": "schedstack", "items": 1, "layers": ["test", "test"],
+           "threads": [[["dispose", 1], ["dispose", 1], ["run", 1], ["run", 0], ["dispose", 0], ["run", 0]]]}
+
+
 def model_request(case):
     return dp.history_request(case)
 
@@ -63,6 +76,8 @@ def oracle(case, out):
         if out.get("error"):
             return f"execution failed: {out['error']}"
         return do.c25_threads(case["scenario"], out["trace"], out["final"])
+    if case["cls"] == "schedstack":
+        return do.c25_stack_history(case, out)
     return do.c25_history(case, out)
 
 
@@ -70,6 +85,8 @@ def nontrivial(case, out):
     if case.get("op") != "history":
         return True
     ops = case["threads"][0]
+    if case["cls"] == "schedstack":
+        return bool(out) and out[-1][1]["cnt"][0] >= 1 and len({tuple(o) for o in ops}) >= 2
     if case["cls"] == "scheduled":
         return len({o[0] for o in ops}) >= 2 and bool(out) and out[-1][1]["cnt"][0] >= 1
     return len(ops) >= 2 or (len(ops) >= 1 and (case.get("reenter", 0) > 0 or 0 in case.get("raises", [])))
@@ -79,6 +96,11 @@ def bucket(case, out):
     if case.get("op") != "history":
         return
     cls = case["cls"]
+    if cls == "schedstack":
+        yield f"schedstack:{len(case['layers'])}-layers"
+        if out and out[-1][1]["cnt"][0]:
+            yield "schedstack:released"
+        return
     yield cls if cls != "scheduled" else f"scheduled:{case['sched_kind']}"
     if cls == "disposable" and case.get("reenter") and case["threads"][0]:
         yield "disposable:reentrant"
